@@ -19,11 +19,60 @@ import (
 // package's pools, with every Read and every pool operation a scheduling point.
 
 var c16Alphabet = []byte{'a', 'b', ' ', '\t', '\n', '\\', '\'', '"'}
-var c16Extra = []byte{'#', '*', '=', 0xc3, 0xa9, 0, '-', '~', '{'}
+
+// Other bytes, drawn occasionally: punctuation with no meaning to the
+// tokenizer, NUL, non-ASCII, and the bytes Go's unicode.IsSpace accepts but
+// POSIX does not treat as blanks (CR, VT, FF, and the UTF-8 encodings of NEL
+// and NBSP).
+var c16Extra = []byte{'#', '*', '=', 0xc3, 0xa9, 0, '-', '~', '{', '\r', '\v', '\f', 0xc2, 0x85, 0xa0}
 
 // drawInput draws a tokenizer input of length 0..maxLen. It never produces $ or
 // ` (no meaning to Split; see DESIGN.md 4.4).
 func drawInput(ch chooser.Chooser, maxLen int) string {
+	if ch.Draw(32, "long?") == 31 {
+		return drawLongInput(ch)
+	}
+	return drawShortInput(ch, maxLen)
+}
+
+// drawLongInput draws an input with one long run (a word, a quoted section or
+// a stretch of blanks) sized so that it straddles the 4096-byte buffer of the
+// scanner's bufio.Reader (or two of them): a tuning constant the caller cannot
+// see, around which "random longer inputs" of the property must also hold.
+func drawLongInput(ch chooser.Chooser) string {
+	pre := drawShortInput(ch, 6)
+	post := drawShortInput(ch, 6)
+	n := 4080 + ch.Draw(40, "runlen")
+	if ch.Draw(4, "twobuf") == 3 {
+		n += 4096
+	}
+	var open, close string
+	var fill []byte
+	switch ch.Draw(4, "runkind") {
+	case 0: // bare word
+		fill = []byte{'a', 'b', '-'}
+	case 1:
+		open, close = "'", "'"
+		fill = []byte{'a', ' ', '\\', '"', '\n'}
+	case 2:
+		open, close = "\"", "\""
+		fill = []byte{'a', ' ', '\'', '\n'}
+	default: // blanks
+		fill = []byte{' ', '\t', '\n'}
+	}
+	f := fill[ch.Draw(len(fill), "fill")]
+	b := make([]byte, 0, n+len(pre)+len(post)+2)
+	b = append(b, pre...)
+	b = append(b, open...)
+	for i := 0; i < n; i++ {
+		b = append(b, f)
+	}
+	b = append(b, close...)
+	b = append(b, post...)
+	return string(b)
+}
+
+func drawShortInput(ch chooser.Chooser, maxLen int) string {
 	n := ch.Draw(maxLen+1, "len")
 	b := make([]byte, n)
 	for i := range b {
@@ -337,6 +386,12 @@ func drawSession(ch chooser.Chooser, withErrors bool, st *Stats) *c16Session {
 	s.Fresh = ch.Draw(3, "fresh") == 0
 	if s.Mode != smPool {
 		s.Faults = drawReaderFaults(ch, len(s.Input), withErrors)
+		if len(s.Input) > 256 && s.Faults.Frag == 1 {
+			s.Faults.Frag = 2 // thousands of one-byte reads buy nothing
+		}
+		if len(s.Input) > 256 {
+			s.Faults.EmptyPct = 0
+		}
 		if s.Mode == smRest {
 			// "The bytes not yet consumed" has no meaning for a stream that
 			// resumes after EOF or after an error: Rest is exercised with
